@@ -234,7 +234,8 @@ def history_frames(ctx, cov):
             open(one, "w").write(r["frame"] + "\n")
             again, _ = decode_frames(ctx, binary, one, mac, "one")     # reproduce: decode the recorded bytes once more
             if not any(k == key for a in again for k, _ in frame_findings(name, a)):
-                raise vlib.InfraError("frame finding %s did not reproduce" % key)
+                wc.unreproduced(ctx, key, what, {"mode": "frames", "producer": name, "count": len(lst)})
+                continue
             replay = {"mode": "frames", "producer": name, "key": key, "frame": r["frame"], "mac": mac, "k": 1}
             if ctx.report(key, "frame emitted along a %s history: %s" % (name, what), replay) == "known":
                 for _ in lst[1:]:
@@ -273,16 +274,28 @@ def run(ctx):
     if summary.get("instances") != len(vecs) * k:
         raise vlib.InfraError("driver executed %s of %d instances" % (summary.get("instances"), len(vecs) * k))
     drift, notes = wc.judge(ctx, binary, "send", vecs, results, k, "send")
+    # send histories through the shared buffer pool: every ordered pair of the canonical calls, 0xEE / previous-frame variants
+    pvecs, pr = wc.tlc_part(ctx, "pairs", {"NICs": '{"nicA"}' if ctx.quick else NICS, "Parts": '{"pairs"}'}, timeout=1200)
+    pvecs = [v for v in pvecs if "prev" in v]
+    cov["tlc"]["pairs"] = dict(pr.summary(), exported=len(pvecs))
+    kp = 1 if ctx.quick else 3
+    presults, psummary = wc.drive(ctx, binary, "send", pvecs, kp, "pairs", timeout=1500)
+    pdrift, pnotes = wc.judge(ctx, binary, "send", pvecs, presults, kp, "pairs")
+    drift += [d for d in pdrift if d["key"] not in {x["key"] for x in drift}]
+    cov["pairs"] = {"vectors": len(pvecs), "instances": psummary.get("instances"), "driver_findings": psummary.get("findings", {})}
+    # concurrent senders after the error-path vector
+    cov["send_concurrent_stage"] = wc.send_concurrent_stage(ctx, binary, 6, 2 if ctx.quick else 20)
     skipped = summary.get("skipped", {})
     nskipped = sum(skipped.values())
     functions = sorted({v["call"]["f"] for v in vecs})
     distinct = {wc.abstract_digest(v) for v in vecs if v.get("clean") and v["exp"]["n"] == 1}
     nframes, _ = history_frames(ctx, cov)
     cov.update({
-        "evaluations": summary["instances"] - nskipped + nframes + summary.get("sweep_calls", 0),
+        "evaluations": summary["instances"] - nskipped + nframes + summary.get("sweep_calls", 0) + (psummary.get("instances") or 0)
+        + cov["send_concurrent_stage"].get("executions", 0),
         "sweep_calls": summary.get("sweep_calls", 0),
         "distinct_nontrivial": len(distinct),
-        "states": r.distinct, "transitions": r.generated,
+        "states": r.distinct + pr.distinct, "transitions": r.generated + pr.generated,
         "rule": "one case = one (send function, parameter classes, NIC configuration) vector enumerated by TLC from WireMC part C, "
                 "called k times with seeded concrete addresses on a session over a recording connection; every recorded frame is decoded "
                 "by the independent reference decoder and compared with the frame the specification expects (property level) and with "
